@@ -1,37 +1,90 @@
-"""C04 - every reported source location is in bounds, on char boundaries, faithful."""
+"""C04 - every reported source location is in bounds, on char boundaries, faithful.
+
+Besides the shared body (checks/span_cover.py) and the front-matter label comparison (checks/c04_labels.py),
+every run REGENERATES coq/Gen/LabelSites.v from /repo/src/analysis/*.rs (gen/gen_labels.py): the inventory of
+the label / span expressions of the analysis stage, pinned by the obligation C04_label_inventory and keyed to
+the classification table of Model/AnalysisLabels.v (C04_label_inventory_classified).  A label expression
+that is added, removed or edited breaks the obligations (the build of Properties/C04.vo fails) and is reported
+with its location; moving code does not."""
+import os
+import sys
+
 from vlib import common
 from checks import c04_labels
 from checks import span_cover as sc
 
+sys.path.insert(0, os.path.join(common.VERIF, "gen"))
+import gen_labels  # noqa: E402
+
 PID = "C04"
 
 
+def inventory():
+    """regenerate Gen/LabelSites.v; -> (stats, disagreements in the format of span_cover's `extra` hook)"""
+    inv = gen_labels.regenerate()
+    expected = gen_labels.expected_sites()
+    new, gone = gen_labels.diff(inv["items"], expected)
+    st = {"sites": len(inv["items"]), "expected": None if expected is None else len(expected),
+          "file_rewritten": inv["changed"], "new": new, "gone": gone,
+          "by_kind": {k: sum(1 for it in inv["items"] if it["kind"] == k) for k in "LMSA"},
+          "samples": ["%s:%d %s: %s" % (it["file"], it["line"], it["fn"], it["text"][:160]) for it in inv["items"][:3]]}
+    dis = []
+    if expected is None or new or gone:
+        what = ("the label inventory of %s differs from the list of C04_label_inventory: new %s; gone %s"
+                % (os.path.join(common.REPO, gen_labels.SUBDIR), new, gone)) if expected is not None else \
+            "Properties/C04.v has no theorem C04_label_inventory"
+        dis.append(("label inventory", {"what": what, "new": new, "gone": gone,
+                                        "unchecked": "classification of the analysis-stage label expressions "
+                                                     "(Model/AnalysisLabels.v label_table) <-> src/analysis/*.rs"}))
+        common.log("  " + what)
+    return st, dis
+
+
 def run(rep, tier, seed):
+    inv_stats, inv_dis = inventory()
     sc.run(PID, "c04:", rep, tier, seed,
            "lexer (token spans: theorems), pull parser events and diagnostics labels (Model/Parser.v: spans computed "
            "by the same arithmetic as the Rust code and compared exactly with the implementation); analysis-stage "
-           "labels: every label expression of event_consumer.rs enumerated and classified (Model/AnalysisLabels.v), "
-           "yaml_find_key_position modelled and compared with the implementation through the labels of the "
-           "'Unsupported value for key' and 'Time overriden' warnings (checks/c04_labels.py); codesnake rendering is "
-           "observed on the implementation only",
+           "labels: every label expression of src/analysis/*.rs is read from the source on every run "
+           "(gen/gen_labels.py -> Gen/LabelSites.v, pinned by C04_label_inventory) and classified row by row "
+           "(Model/AnalysisLabels.v label_table); yaml_find_key_position modelled and compared with the "
+           "implementation through the labels of the 'Unsupported value for key' and 'Time overriden' warnings, the "
+           "front matter error label compared with serde_yaml's own location (checks/c04_labels.py); codesnake "
+           "rendering is observed on the implementation only",
            "theorems cover the token stream (tiling, adjacency, faithfulness, span_ok) for every input and Unicode "
            "classification; every span of every parser event and parse-stage label for every input "
            "(C04_event_spans_ok, C04_diag_labels_ok); every label any analysis-stage site can produce from the events of "
-           "any input (C04_analysis_labels_ok; hypothesis: serde_yaml's error index is a character boundary of the front "
-           "matter, checked on every rejected front matter of the run); the correspondence ties the models to the code",
-           extra=c04_labels.extra)
+           "any input (C04_analysis_labels_ok, read from the regenerated inventory: C04_inventory_labels_ok; hypothesis: "
+           "serde_yaml's error index is a character boundary of the front matter, checked on every rejected front "
+           "matter of the run); the correspondence ties the models to the code",
+           extra=lambda inputs: inv_dis + c04_labels.extra(inputs))
     rep.coverage["analysis_label_key_positions"] = c04_labels.LAST_STATS
+    rep.coverage["analysis_label_inventory"] = inv_stats
     rep.assumptions = ["oracle hypothesis yaml_index_ok: the index of serde_yaml's error location is a character boundary "
                        "of the text it parsed (monitored: checks/c04_labels.py and the c04:label monitor)",
+                       "the inventory of label expressions is a token-level scan of src/analysis/*.rs (label!, .label, "
+                       ".add_label, error!/warning! label argument, Span::new/pos/from, arguments at Span parameters of "
+                       "local functions; a lone identifier is followed by its nearest binder): a span computed in another "
+                       "module and passed through a name is pinned as that name, not as its computation; which site a "
+                       "row reaches (label_table) is read off the source by hand",
                        "AST nodes are the event payloads moved into blocks (src/ast.rs): their spans are the event spans",
                        "report rendering (codesnake) is third-party code: exercised, not modelled"]
 
 
 def setup():
+    gen_labels.regenerate()
     sc.setup()
     common.build_harness(["yamlkey"], release=True)
     common.build_runner("yamlkey", c04_labels.DEPS, commons=("common_n.ml",))
+    common.build_coq(["Properties/C04.vo"])
 
 
 def replay(rp):
-    return sc.replay(rp, "c04:")
+    if "input_hex" in rp.get("replay", {}):
+        return sc.replay(rp, "c04:")
+    # a broken obligation / a changed inventory without a failing input: rebuild the obligations
+    st, dis = inventory()
+    audit = common.audit_property_file(PID)
+    print("label inventory: %d sites, new %s, gone %s" % (st["sites"], st["new"], st["gone"]))
+    print("obligations: %d/%d %s" % (audit["discharged"], audit["obligations"], "; ".join(audit["failed"])))
+    return 0 if audit["ok"] and not dis else 1
